@@ -17,6 +17,16 @@ N4  else after a terminator  `if c: A  else: B` with A ending in return/raise/co
                              B (same control-flow graph).  The form is aligned with the catalogued function's `if` of
                              the same test: hoisted out of the `else:` when that one has no else, pushed into an
                              `else:` when it has one.
+N5  augmented assignment     `t = t <op> e` -> `t <op>= e` when the catalogued function updates the same target with the
+                             same operator in the augmented form (and the reverse).  The two differ only for a mutable
+                             object that is aliased; targets whose operand is a list display are never catalogued.
+N6  nested conjunction       `if a: if b: X` (no else on either, nothing else in the outer body) is `if a and b: X`;
+                             merged or split to the form the catalogued function has.
+N7  early continue           in a loop body `if t: continue` followed by R (to the end of the body) is `if not t: R`;
+                             aligned with the catalogued function.
+N8  dead bookkeeping         (package level) an assignment to an attribute of self / an entry of self.__dict__ whose
+                             name occurs nowhere else in the package, with an effect-free right-hand side, is dropped:
+                             nothing can observe it.
 """
 import ast
 import json
@@ -152,8 +162,234 @@ def table():
     return _table
 
 
+_OPN = {ast.Add: "+", ast.Sub: "-", ast.Mult: "*", ast.FloorDiv: "//", ast.Mod: "%", ast.BitOr: "|", ast.BitAnd: "&", ast.BitXor: "^",
+        ast.LShift: "<<", ast.RShift: ">>", ast.Div: "/", ast.Pow: "**"}
+_OPC = dict((v, k) for k, v in _OPN.items())
+
+
+def _listish(e):
+    return isinstance(e, (ast.List, ast.ListComp)) or (isinstance(e, ast.Call) and isinstance(e.func, ast.Name) and e.func.id == "list")
+
+
+def aug_forms(fn):
+    """[[target text, operator, 'aug' | 'plain']] for updates `t op= e` / `t = t op e` of names and attributes."""
+    out = []
+    for n in ast.walk(fn):
+        if isinstance(n, ast.AugAssign) and type(n.op) in _OPN and isinstance(n.target, (ast.Name, ast.Attribute)) and not _listish(n.value):
+            out.append([_u(n.target), _OPN[type(n.op)], "aug"])
+        elif (isinstance(n, ast.Assign) and len(n.targets) == 1 and isinstance(n.targets[0], (ast.Name, ast.Attribute)) and isinstance(n.value, ast.BinOp)
+              and type(n.value.op) in _OPN and _u(n.value.left) == _u(n.targets[0]) and not _listish(n.value.right)):
+            out.append([_u(n.targets[0]), _OPN[type(n.value.op)], "plain"])
+    return out
+
+
+def _conj(t):
+    return list(t.values) if isinstance(t, ast.BoolOp) and isinstance(t.op, ast.And) else [t]
+
+
+def _and_text(vals):
+    return _u(vals[0]) if len(vals) == 1 else _u(ast.BoolOp(op=ast.And(), values=list(vals)))
+
+
+def if_tests(fn):
+    return sorted(set(_u(n.test) for n in ast.walk(fn) if isinstance(n, ast.If)))
+
+
+def nested_pairs(fn):
+    out = []
+    for n in ast.walk(fn):
+        if isinstance(n, ast.If) and not n.orelse and len(n.body) == 1 and isinstance(n.body[0], ast.If) and not n.body[0].orelse:
+            out.append([_u(n.test), _u(n.body[0].test)])
+    return out
+
+
+def _neg_text(t):
+    if isinstance(t, ast.UnaryOp) and isinstance(t.op, ast.Not):
+        return _u(t.operand)
+    return _u(ast.UnaryOp(op=ast.Not(), operand=t))
+
+
+def continue_tests(fn):
+    out = []
+    for n in ast.walk(fn):
+        if isinstance(n, (ast.For, ast.While)):
+            for st in n.body:
+                if isinstance(st, ast.If) and not st.orelse and len(st.body) == 1 and isinstance(st.body[0], ast.Continue):
+                    out.append(_u(st.test))
+    return sorted(set(out))
+
+
+def attr_names(tree):
+    return set(n.attr for n in ast.walk(tree) if isinstance(n, ast.Attribute)) | \
+        set(n.slice.value for n in ast.walk(tree) if isinstance(n, ast.Subscript) and isinstance(n.slice, ast.Constant) and isinstance(n.slice.value, str))
+
+
 def entry_for(fn):
-    return {"cmp": compares_of(fn), "logs": log_texts(fn), "ifs": if_shapes(fn)}
+    return {"cmp": compares_of(fn), "logs": log_texts(fn), "ifs": if_shapes(fn), "aug": aug_forms(fn), "tests": if_tests(fn),
+            "nested": nested_pairs(fn), "conts": continue_tests(fn)}
+
+
+def n5_align_augassign(fn, ent):
+    ref = {}
+    for t, op, form in ent.get("aug", ()):
+        k = (t, op)
+        ref[k] = form if ref.get(k, form) == form else "mixed"
+    n = 0
+    for owner, field, v in list(_all_blocks(fn)):
+        for i, st in enumerate(v):
+            if (isinstance(st, ast.Assign) and len(st.targets) == 1 and isinstance(st.targets[0], (ast.Name, ast.Attribute)) and isinstance(st.value, ast.BinOp)
+                    and type(st.value.op) in _OPN and _u(st.value.left) == _u(st.targets[0]) and not _listish(st.value.right)):
+                if ref.get((_u(st.targets[0]), _OPN[type(st.value.op)])) == "aug":
+                    v[i] = ast.copy_location(ast.AugAssign(target=st.targets[0], op=st.value.op, value=st.value.right), st)
+                    n += 1
+            elif isinstance(st, ast.AugAssign) and type(st.op) in _OPN and isinstance(st.target, (ast.Name, ast.Attribute)) and not _listish(st.value):
+                if ref.get((_u(st.target), _OPN[type(st.op)])) == "plain":
+                    import copy
+                    load = copy.deepcopy(st.target)
+                    load.ctx = ast.Load()
+                    v[i] = ast.copy_location(ast.Assign(targets=[st.target], value=ast.BinOp(left=load, op=st.op, right=st.value)), st)
+                    n += 1
+    return n
+
+
+def n6_align_nested(fn, ent):
+    tests = set(ent.get("tests", ()))
+    nested = set(tuple(p) for p in ent.get("nested", ()))
+    n = 0
+    changed = True
+    while changed:
+        changed = False
+        for node in ast.walk(fn):
+            if not isinstance(node, ast.If) or node.orelse:
+                continue
+            if len(node.body) == 1 and isinstance(node.body[0], ast.If) and not node.body[0].orelse:
+                inner = node.body[0]
+                merged = _and_text(_conj(node.test) + _conj(inner.test))
+                if merged in tests and (_u(node.test), _u(inner.test)) not in nested:
+                    vals = _conj(node.test) + _conj(inner.test)
+                    node.test = ast.copy_location(ast.BoolOp(op=ast.And(), values=vals), node.test)
+                    node.body = inner.body
+                    n += 1
+                    changed = True
+                    break
+            vals = _conj(node.test)
+            if len(vals) >= 2 and _u(node.test) not in tests:
+                for k in range(1, len(vals)):
+                    if (_and_text(vals[:k]), _and_text(vals[k:])) in nested:
+                        inner = ast.copy_location(ast.If(test=vals[k] if len(vals) - k == 1 else ast.BoolOp(op=ast.And(), values=vals[k:]), body=node.body, orelse=[]), node)
+                        node.test = vals[0] if k == 1 else ast.BoolOp(op=ast.And(), values=vals[:k])
+                        node.body = [inner]
+                        n += 1
+                        changed = True
+                        break
+                if changed:
+                    break
+    return n
+
+
+def n7_align_continue(fn, ent):
+    tests = set(ent.get("tests", ()))
+    conts = set(ent.get("conts", ()))
+    n = 0
+    for lp in [x for x in ast.walk(fn) if isinstance(x, (ast.For, ast.While))]:
+        changed = True
+        while changed:
+            changed = False
+            v = lp.body
+            for i, st in enumerate(v):
+                if isinstance(st, ast.If) and not st.orelse and len(st.body) == 1 and isinstance(st.body[0], ast.Continue) and i + 1 < len(v):
+                    if _u(st.test) not in conts and _neg_text(st.test) in tests:
+                        t = st.test
+                        neg = t.operand if isinstance(t, ast.UnaryOp) and isinstance(t.op, ast.Not) else ast.UnaryOp(op=ast.Not(), operand=t)
+                        lp.body = v[:i] + [ast.copy_location(ast.If(test=neg, body=v[i + 1:], orelse=[]), st)]
+                        n += 1
+                        changed = True
+                        break
+                if isinstance(st, ast.If) and not st.orelse and i == len(v) - 1 and _u(st.test) not in tests and _neg_text(st.test) in conts:
+                    t = st.test
+                    neg = t.operand if isinstance(t, ast.UnaryOp) and isinstance(t.op, ast.Not) else ast.UnaryOp(op=ast.Not(), operand=t)
+                    lp.body = v[:i] + [ast.copy_location(ast.If(test=neg, body=[ast.copy_location(ast.Continue(), st)], orelse=[]), st)] + st.body
+                    n += 1
+                    changed = True
+                    break
+    return n
+
+
+def _dead_store_name(st):
+    """name written by `self.X = e` / `self.__dict__['X'] = e` with e effect-free (reads of the same slot through
+    getattr(self, 'X', d) / self.__dict__.get('X', d) allowed), else None."""
+    if not (isinstance(st, (ast.Assign, ast.AugAssign))):
+        return None
+    tg = st.targets[0] if isinstance(st, ast.Assign) and len(st.targets) == 1 else (st.target if isinstance(st, ast.AugAssign) else None)
+    name = None
+    if isinstance(tg, ast.Attribute) and isinstance(tg.value, ast.Name) and tg.value.id == "self":
+        name = tg.attr
+    elif (isinstance(tg, ast.Subscript) and _u(tg.value) == "self.__dict__" and isinstance(tg.slice, ast.Constant) and isinstance(tg.slice.value, str)):
+        name = tg.slice.value
+    if name is None:
+        return None
+
+    def pure(e):
+        if isinstance(e, ast.Call):
+            f = e.func
+            ok = (isinstance(f, ast.Name) and f.id == "getattr" and len(e.args) == 3 and _u(e.args[0]) == "self") or \
+                 (isinstance(f, ast.Attribute) and f.attr == "get" and _u(f.value) == "self.__dict__")
+            return ok and all(pure(a) for a in e.args)
+        if isinstance(e, (ast.Await, ast.Yield, ast.YieldFrom, ast.NamedExpr, ast.Lambda, ast.ListComp, ast.SetComp, ast.DictComp, ast.GeneratorExp)):
+            return False
+        return all(pure(c) for c in ast.iter_child_nodes(e) if isinstance(c, ast.expr))
+    return name if pure(st.value) else None
+
+
+def drop_dead_bookkeeping(trees):
+    """N8 over the whole package: ``trees`` is {module name: ast.Module}."""
+    cand = {}
+    for mod, tree in trees.items():
+        for n in ast.walk(tree):
+            if isinstance(n, ast.stmt):
+                nm = _dead_store_name(n)
+                if nm is not None:
+                    cand.setdefault(nm, []).append(n)
+    if not cand:
+        return []
+    inside = {}
+    for nm, sts in cand.items():
+        ids = set()
+        for st in sts:
+            for x in ast.walk(st):
+                ids.add(id(x))
+        inside[nm] = ids
+    alive = set()
+    for mod, tree in trees.items():
+        for n in ast.walk(tree):
+            nm = None
+            if isinstance(n, ast.Attribute):
+                nm = n.attr
+            elif isinstance(n, ast.Constant) and isinstance(n.value, str):
+                nm = n.value
+            elif isinstance(n, ast.Name):
+                nm = n.id
+            elif isinstance(n, ast.arg):
+                nm = n.arg
+            elif isinstance(n, ast.keyword):
+                nm = n.arg
+            if nm in cand and id(n) not in inside[nm]:
+                alive.add(nm)
+    known = set(table().get("__attrs__", ()))
+    dead = set(nm for nm in cand if nm not in alive and nm not in known)      # slots today's tree has are never dropped
+    # a name that also occurs inside a string (getattr with a computed name, __slots__, format fields) stays
+    dropped = []
+    if not dead:
+        return dropped
+    deadnodes = set(id(st) for nm in dead for st in cand[nm])
+    for mod, tree in trees.items():
+        for fn in [x for x in ast.walk(tree) if isinstance(x, (ast.FunctionDef, ast.AsyncFunctionDef))]:
+            for owner, field, v in list(_all_blocks(fn)):
+                new = [st for st in v if id(st) not in deadnodes]
+                if len(new) != len(v):
+                    dropped += [(mod, _u(st)[:60]) for st in v if id(st) in deadnodes]
+                    setattr(owner, field, new or [ast.copy_location(ast.Pass(), v[0])])
+    return dropped
 
 
 def n2_strip_logging(fn, ent):
@@ -256,13 +492,15 @@ def canonicalise(tree, modname, stage="post"):
     atab = alpha.table()
     for q, fn in alpha.functions_of(tree, modname):
         ent = tab.get(q)
-        if ent is None:
+        if not isinstance(ent, dict):
             continue
         if stage == "pre":
             ref_locals = set((atab.get(q) or {}).get("names", ()))
             ks = {"N2": n2_strip_logging(fn, ent), "N3": n3_inline_return_temps(fn, ent, ref_locals)}
         else:
-            ks = {"N1": n1_orient_compares(fn, ent)}
+            ks = {"N5": n5_align_augassign(fn, ent), "N1": n1_orient_compares(fn, ent)}
+            ks["N6"] = n6_align_nested(fn, ent)
+            ks["N7"] = n7_align_continue(fn, ent)
             ks["N4"] = n4_align_else(fn, ent)
         if any(ks.values()):
             done.append((q, ks))
